@@ -47,6 +47,10 @@ impl Res {
 #[derive(Clone, Debug)]
 struct Case {
     mode: char,
+    /// which components of the module identity (code file, code id, debug file, debug id) depend on
+    /// the key: '0' all four; 'C' / 'I' / 'F' / 'D' only that one (the other three are the same for
+    /// every key). Two keys are two DISTINCT modules in every variant. The model does not see it.
+    variant: char,
     /// (key, via walk_frame)
     progs: Vec<Vec<(u64, bool)>>,
     sup: BTreeMap<u64, (u32, Res)>,
@@ -58,7 +62,16 @@ fn parse_case(case: &str) -> Option<Case> {
     if f.len() != 6 || f[0] != "once" || f[1] != "run" {
         return None;
     }
-    let mode = match f[2].strip_prefix("x:")? {
+    let x = f[2].strip_prefix("x:")?;
+    let (x, variant) = match x.len() {
+        1 => (x, '0'),
+        2 => (&x[..1], x.chars().nth(1)?),
+        _ => return None,
+    };
+    if !"0CIFD".contains(variant) {
+        return None;
+    }
+    let mode = match x {
         "a" => 'a',
         "w" => 'w',
         "j" => 'j',
@@ -102,7 +115,7 @@ fn parse_case(case: &str) -> Option<Case> {
     if mode == 'j' && !sched.is_empty() {
         return None;
     }
-    Some(Case { mode, progs, sup, sched })
+    Some(Case { mode, variant, progs, sup, sched })
 }
 
 fn render(c: &Case) -> String {
@@ -132,7 +145,8 @@ fn render(c: &Case) -> String {
     } else {
         c.sched.iter().map(|x| x.to_string()).collect::<Vec<_>>().join(",")
     };
-    format!("once run x:{} tasks:{tasks} sup:{sup} sched:{sched}", c.mode)
+    let v = if c.variant == '0' { String::new() } else { c.variant.to_string() };
+    format!("once run x:{}{v} tasks:{tasks} sup:{sup} sched:{sched}", c.mode)
 }
 
 // ------------------------------------------------------------------------------------ the mock
@@ -152,6 +166,7 @@ struct Shared {
 }
 
 struct Mock {
+    variant: char,
     table: BTreeMap<u64, (u32, Res)>,
     sh: Arc<Mutex<Shared>>,
 }
@@ -171,23 +186,32 @@ impl Future for YieldOnce {
     }
 }
 
-fn key_of_code_file(code_file: &str) -> u64 {
-    // "/lib/m<k>.so"
-    code_file
-        .trim_start_matches("/lib/m")
-        .trim_end_matches(".so")
-        .parse()
-        .expect("mock: unknown module")
+/// the key of a mock module, read back from the component that carries it in this variant
+fn key_of_module(module: &(dyn Module + Sync), variant: char) -> u64 {
+    let digits = |s: &str| -> u64 {
+        let d: String = s.chars().filter(|c| c.is_ascii_digit()).collect();
+        d.parse().expect("mock: unknown module")
+    };
+    match variant {
+        '0' | 'C' => digits(module.code_file().trim_start_matches("/lib/m").trim_end_matches(".so")),
+        'I' => u64::from_str_radix(module.code_identifier().expect("mock: code id").as_str().trim_start_matches("c0de"), 16).expect("mock: code id"),
+        'F' => digits(module.debug_file().expect("mock: debug file").trim_start_matches('m').trim_end_matches(".dbg")),
+        _ => (module.debug_identifier().expect("mock: debug id").uuid().as_u128() & 0xffff_ffff) as u64,
+    }
 }
 
-fn module_for(k: u64) -> SimpleModule {
-    // all four components of `module_key` are present and depend on k
-    let id = debugid::DebugId::from_str(&format!("abcd1234-abcd-1234-abcd-abcd{:08x}-a", k)).unwrap();
+fn module_for(k: u64, variant: char) -> SimpleModule {
+    // variant '0': all four components of the module identity depend on k; otherwise exactly one does
+    // and the three others are shared by all keys (modules that differ in one component only are
+    // still different modules: a renamed copy, a rebuilt binary, ...)
+    let on = |c: char| variant == '0' || variant == c;
+    let kd = if on('D') { k } else { 0xffff };
+    let id = debugid::DebugId::from_str(&format!("abcd1234-abcd-1234-abcd-abcd{:08x}-a", kd)).unwrap();
     SimpleModule::from_basic_info(
-        Some(format!("m{k}.dbg")),
+        Some(if on('F') { format!("m{k}.dbg") } else { "mshared.dbg".to_string() }),
         Some(id),
-        Some(format!("/lib/m{k}.so")),
-        Some(debugid::CodeId::new(format!("C0DE{k:04X}"))),
+        Some(if on('C') { format!("/lib/m{k}.so") } else { "/lib/mshared.so".to_string() }),
+        Some(debugid::CodeId::new(if on('I') { format!("C0DE{k:04X}") } else { "C0DEFFFF".to_string() })),
     )
 }
 
@@ -197,7 +221,7 @@ impl SymbolSupplier for Mock {
         &self,
         module: &(dyn Module + Sync),
     ) -> Result<LocateSymbolsResult, SymbolError> {
-        let k = key_of_code_file(&module.code_file());
+        let k = key_of_module(module, self.variant);
         let (delay, res) = self.table[&k];
         let inst = {
             let mut sh = self.sh.lock().unwrap();
@@ -277,9 +301,9 @@ impl FrameWalker for Walker {
 }
 
 /// what one task does: its lookups one after another on the shared symbolizer
-async fn task_body(sym: &Symbolizer, t: usize, prog: &[(u64, bool)], sh: &Arc<Mutex<Shared>>) {
+async fn task_body(sym: &Symbolizer, variant: char, t: usize, prog: &[(u64, bool)], sh: &Arc<Mutex<Shared>>) {
     for &(k, via_walk) in prog {
-        let m = module_for(k); // a fresh, equal-by-value module every time
+        let m = module_for(k, variant); // a fresh, equal-by-value module every time
         let inst: Option<String> = if via_walk {
             let mut w = Walker::default();
             match sym.walk_frame(&m, &mut w).await {
@@ -302,9 +326,11 @@ async fn task_body(sym: &Symbolizer, t: usize, prog: &[(u64, bool)], sh: &Arc<Mu
             Some(_) => Res::Ok,
             None => {
                 // the remembered failure, as far as the public API shows it
+                // (the statistics are keyed by the code file's leaf name, which only tells the keys apart
+                // when the code file carries the key; the other variants use ok/nf outcomes only)
                 let st = sym.stats();
                 match st.get(&format!("m{k}.so")) {
-                    Some(s) if s.loaded_symbols && s.corrupt_symbols => Res::Pe,
+                    Some(s) if (variant == '0' || variant == 'C') && s.loaded_symbols && s.corrupt_symbols => Res::Pe,
                     _ => Res::Nf,
                 }
             }
@@ -381,12 +407,12 @@ fn summary(c: &Case, sym: &Symbolizer, sh: &Shared, finished: &[bool]) -> String
 fn run_scheduled(c: &Case) -> RunOut {
     let n = c.progs.len();
     let sh = Arc::new(Mutex::new(Shared::default()));
-    let sym = Symbolizer::new(Mock { table: c.sup.clone(), sh: sh.clone() });
+    let sym = Symbolizer::new(Mock { variant: c.variant, table: c.sup.clone(), sh: sh.clone() });
     let flags: Vec<Arc<Flag>> = (0..n).map(|_| Arc::new(Flag(AtomicBool::new(true)))).collect();
     let wakers: Vec<Waker> = flags.iter().map(|f| Waker::from(f.clone())).collect();
     let mut futs: Vec<Option<Pin<Box<dyn Future<Output = ()> + '_>>>> = Vec::new();
     for t in 0..n {
-        futs.push(Some(Box::pin(task_body(&sym, t, &c.progs[t], &sh))));
+        futs.push(Some(Box::pin(task_body(&sym, c.variant, t, &c.progs[t], &sh))));
     }
     let mut out = RunOut {
         trace: vec![],
@@ -494,10 +520,10 @@ fn run_scheduled(c: &Case) -> RunOut {
 fn run_join_all(c: &Case) -> RunOut {
     let n = c.progs.len();
     let sh = Arc::new(Mutex::new(Shared::default()));
-    let sym = Symbolizer::new(Mock { table: c.sup.clone(), sh: sh.clone() });
+    let sym = Symbolizer::new(Mock { variant: c.variant, table: c.sup.clone(), sh: sh.clone() });
     let rt = tokio::runtime::Builder::new_current_thread().enable_time().build().unwrap();
     let done = rt.block_on(async {
-        let futs = (0..n).map(|t| task_body(&sym, t, &c.progs[t], &sh));
+        let futs = (0..n).map(|t| task_body(&sym, c.variant, t, &c.progs[t], &sh));
         tokio::time::timeout(std::time::Duration::from_secs(10), futures_util::future::join_all(futs))
             .await
             .is_ok()
@@ -600,7 +626,28 @@ fn oracle(c: &Case, r: &RunOut) -> Vec<(String, String)> {
 }
 
 fn fmt_cfg(progs: &[Vec<(u64, bool)>], sup: &BTreeMap<u64, (u32, Res)>, mode: char, sched: Vec<u64>) -> String {
-    render(&Case { mode, progs: progs.to_vec(), sup: sup.clone(), sched })
+    // the identity variant is a function of the case (so that the exhaustive enumeration stays what it
+    // is and every variant is exercised): 'C' needs nothing; I/F/D share the code file, hence the
+    // statistics entry, so they are used only when no outcome is a parse error
+    let mut h: u64 = 0xcbf29ce484222325;
+    for p in progs {
+        for (k, w) in p {
+            h = (h ^ (k * 2 + *w as u64 + 1)).wrapping_mul(0x100000001b3);
+        }
+        h = (h ^ 0xff).wrapping_mul(0x100000001b3);
+    }
+    for x in &sched {
+        h = (h ^ (x + 7)).wrapping_mul(0x100000001b3);
+    }
+    let no_pe = sup.values().all(|(_, r)| *r != Res::Pe);
+    let variant = match (h >> 20) % 8 {
+        0 | 1 => 'C',
+        2 if no_pe => 'I',
+        3 if no_pe => 'F',
+        4 if no_pe => 'D',
+        _ => '0',
+    };
+    render(&Case { mode, variant, progs: progs.to_vec(), sup: sup.clone(), sched })
 }
 
 /// schedule length for the exhaustive part: enough polls for a completion plus slack
@@ -742,6 +789,13 @@ impl Engine for Once {
         }
     }
 
+    fn model_request(&self, case: &str) -> Option<String> {
+        // the model knows keys, not how a module's identity is spelled: it gets the case without the variant
+        let mut c = parse_case(case)?;
+        c.variant = '0';
+        Some(render(&c))
+    }
+
     fn exec(&self, case: &str) -> ImplResult {
         let mut res = ImplResult::default();
         let Some(c) = parse_case(case) else {
@@ -769,6 +823,7 @@ impl Engine for Once {
         let suspending = c.sup.values().any(|(d, _)| *d > 0);
         res.nontrivial = shared_key && (r.blocked_polls > 0 || (c.mode == 'j' && suspending));
         res.tags.push(format!("exec:{}", c.mode));
+        res.tags.push(format!("identity-variant:{}", c.variant));
         res.tags.push(format!("tasks:{}", c.progs.len()));
         res.tags.push(format!("keys:{}", c.sup.len()));
         res.tags.push(format!("max-suspensions:{}", c.sup.values().map(|(d, _)| *d).max().unwrap_or(0)));
